@@ -28,7 +28,7 @@ type Sig struct {
 
 var hostileResultNames = []string{"f", "err", "g", "param_0", "param_1", "out0", "success", "v0", "res0", "ok", "e", "this", "mem", "input", "h", "c"}
 
-var hostileNames = []string{"f", "g", "err", "param_0", "v0", "in", "out", "this", "that", "list", "param_1", "innerParam_0", "h", "m", "res0", "ok", "success", "e", "out0", "out1", "v", "c", "i", "wait", "mem", "input", "output"}
+var hostileNames = []string{"f", "g", "err", "param_0", "v0", "in", "out", "this", "that", "list", "param_1", "innerParam_0", "h", "m", "res0", "ok", "success", "e", "out0", "out1", "v", "c", "i", "wait", "mem", "input", "output", "nil", "true", "false"}
 
 // NameParams assigns parameter names according to a naming mode.
 func NameParams(t *rapid.T, n int, mode string) []string {
